@@ -68,6 +68,16 @@ impl Tiles {
     }
 }
 
+impl Tiles {
+    pub(crate) fn len(&self) -> usize {
+        self.0.len()
+    }
+
+    pub(crate) fn iter(&self) -> impl Iterator<Item = &Tile> {
+        self.0.iter()
+    }
+}
+
 impl Index<usize> for Tiles {
     type Output = Tile;
 
